@@ -146,12 +146,22 @@ theorem c20_x_filter_released_once :
   decide
 
 /-- the pooled filter carries nothing from one fetch to the next: `acquire` sets the request's filter
-unconditionally (nil included), `release` clears it - so `filterFields` always works with the list of its own
+unconditionally (nil included) and spawns a decoder exactly when the pointer is nil, `release` clears the filter and
+does nothing else - in particular it never gives the decoder back to insane-json's pool while keeping the pointer
+(a released decoder would be shared with the next `Spawn`) - so `filterFields` always works with the list of its own
 request, as the model does -/
 theorem c20_x_filter_state_per_request :
     acquireFilterStmts = ["dp := docFieldsFilterPool.Get().(*docFieldsFilter)",
       "if dp.decoder == nil { dp.decoder = insaneJSON.Spawn() }", "dp.filter = filter", "return dp"] ∧
     releaseFilterStmts = ["dp.filter = nil", "docFieldsFilterPool.Put(dp)"] := by decide
+
+/-- the proxy takes the field names of a fetch request literally: the Fetch handler hands
+`req.FieldsFilter.Fields` / `AllowList` to the ingestor as they are and the ingestor puts them into the store request
+as they are - no trimming, no dropping of empty names (JSON keys may be empty or carry blanks) -/
+theorem c20_x_proxy_passes_names_unchanged :
+    proxyFetchFilterArg = ["search.FetchFieldsFilter{ Fields: req.GetFieldsFilter().GetFields(), AllowList: req.GetFieldsFilter().GetAllowList(), }"] ∧
+    makeFetchReqFilter = ["&storeapi.FetchRequest_FieldsFilter{ Fields: ff.Fields, AllowList: ff.AllowList, }"] := by
+  decide
 
 /-- `tryParseFieldsFilter`: parse with a nil mapping, first `*parser.PipeFields`, `AllowList = !Except` -/
 theorem c20_x_parse_shape :
